@@ -20,7 +20,8 @@ import os
 import sys
 import types
 
-GLOBALS = ["G0", "G1", "G2"]
+# "@c1" is a *module global* named c1: the closure cell c1 of every site factory hides it
+GLOBALS = ["G0", "G1", "G2", "@c1"]
 CLASSATTRS = ["K0.A", "K0.In.B"]
 MODATTRS = ["simcfg.m"]
 CELLS = ["c0", "c1"]
@@ -35,6 +36,7 @@ INITIAL = {
     "simcfg.m": ["int", 6],
     "c0": ["int", 9],
     "c1": ["int", 11],
+    "@c1": ["int", 5151],
 }
 
 
@@ -74,7 +76,7 @@ def render(sites, initial=INITIAL) -> str:
     layout robustness is C03's business, not the claimed properties'."""
     out = ["import simcfg\n"]
     for g in GLOBALS:
-        out.append(f"{g} = {_lit(initial[g])}\n")
+        out.append(f"{g.lstrip('@')} = {_lit(initial[g])}\n")
     out.append("class K0:\n")
     out.append(f"    A = {_lit(initial['K0.A'])}\n")
     out.append("    class In:\n")
@@ -137,7 +139,7 @@ class ClientProgram:
     def rebind(self, name, v):
         val = decode(v)
         if name in GLOBALS:
-            setattr(self.mod, name, val)
+            setattr(self.mod, name.lstrip("@"), val)
         elif name == "K0.A":
             self.mod.K0.A = val
         elif name == "K0.In.B":
@@ -154,7 +156,7 @@ class ClientProgram:
         if not self.bound[name]:
             return False
         if name in GLOBALS:
-            delattr(self.mod, name)
+            delattr(self.mod, name.lstrip("@"))
         elif name == "K0.A":
             del self.mod.K0.A
         elif name == "K0.In.B":
